@@ -149,6 +149,13 @@ def build_cases(graphs, tier, rng, workdir):
               "fragment A on Obj { inext { id } }\nquery Q { iface { __typename ... on Obj { ...A } } }",
               "query Q { uni { __typename ... on Obj2 { next { nope } } } }",
               "query Q { uni { __typename ... on Obj2 { ... on Obj2 { ... on Nope { id } } } } }",
+              # ... and from below inline fragments nested directly in one another on the SAME type, or next to a
+              # field whose alias spells a path segment (`onObj`)
+              "query Q { iface { __typename ... on Obj { ... on Obj { inext { id } } } } }",
+              "query Q { iface { __typename ... on Obj { ... on Obj { ... on Obj { unext { ... on Obj { id } } } } } } }",
+              "query Q { iface { __typename ... on Obj { ... on Obj { inext { __typename id } } } } }",
+              "query Q { iface { __typename ... on Obj { onObj: next { inext { id } } } } }",
+              "query Q { uni { __typename ... on Obj2 { ... on Obj2 { next { inext { id } } } } } }",
               "fragment S on Selfish { __typename }\nquery Q { iface { __typename ...S } }",
               "fragment I on Iface { __typename id }\nquery Q { selfish { __typename ...I } }"):
         cases.append({"class": "odd-abstract", "detail": {"query": q}, "schema_path": schema_path, "query": q + "\n"})
